@@ -184,8 +184,8 @@ func minimise(spec *RunSpec, class string, pred func(*RunSpec) bool, maxTried in
 		// 3b. configuration: switch features off one at a time
 		for _, f := range []func(*Config){
 			func(c *Config) { c.GFM, c.TableAlign, c.LinkifyOpt = false, "", "" }, func(c *Config) { c.TableAlign = "" }, func(c *Config) { c.DefList = false },
-			func(c *Config) { c.Footnote, c.FootnoteOpt = false, "" }, func(c *Config) { c.FootnoteOpt = "" }, func(c *Config) { c.Typographer, c.TypoSubs, c.TypoAll = false, false, false },
-			func(c *Config) { c.TypoSubs, c.TypoAll = false, false }, func(c *Config) { c.TypoAll = false }, func(c *Config) { c.ErrRenderer = false }, func(c *Config) { c.HeadingAttr = false },
+			func(c *Config) { c.Footnote, c.FootnoteOpt = false, "" }, func(c *Config) { c.FootnoteOpt = "" }, func(c *Config) { c.Typographer, c.TypoSubs, c.TypoAll, c.TypoShort = false, false, false, false },
+			func(c *Config) { c.TypoSubs, c.TypoAll, c.TypoShort = false, false, false }, func(c *Config) { c.TypoAll = false }, func(c *Config) { c.TypoShort = false }, func(c *Config) { c.ParserLists = "" }, func(c *Config) { c.ErrRenderer = false }, func(c *Config) { c.HeadingAttr = false },
 			func(c *Config) { c.ExtHTMLOpts = false }, func(c *Config) { c.HTMLWriter = "" }, func(c *Config) { c.LinkifyOpt = "" }, func(c *Config) { c.CJK = "" },
 			func(c *Config) { c.AutoID = false }, func(c *Config) { c.Attribute = false }, func(c *Config) { c.Unsafe = false },
 			func(c *Config) { c.XHTML = false }, func(c *Config) { c.HardWraps = false }} {
